@@ -25,9 +25,9 @@ def plan_cli(steps, R, P, faulty):
             steps.append({'k': 'cli', 'cmd': cmd, 'files': files, 'src': src, 'page_size': R.randint(1, 5),
                           'suffix': R.choice([None, None, '.mos.xml', '.xml'])})
         else:
-            usable = [i for i, s in enumerate(st) if s['op']['type'] != 'Raw' and not s.get('corrupt')]
+            usable = [i for i, s in enumerate(st) if s['op']['type'] != 'Raw' and not s.get('corrupt') and not s['op'].get('malformed')]
             sel = list(usable)
-            kind = R.choice(['plain', 'plain', 'plain', 'no-create', 'no-delete', 'subset', 'bad-input', 'bad-output', 'none'])
+            kind = R.choice(['plain', 'plain', 'plain', 'no-create', 'no-delete', 'subset', 'bad-input', 'bad-output', 'none', 'dup-path', 'dup-path'])
             if kind == 'no-create':
                 sel = [i for i in sel if st[i]['op']['type'] != 'ROCreate']
             elif kind == 'no-delete':
@@ -36,6 +36,8 @@ def plan_cli(steps, R, P, faulty):
                 sel = sorted(R.sample(sel, max(1, len(sel) - R.randint(1, 2))))
             elif kind == 'none':
                 sel = []
+            if kind == 'dup-path' and sel:
+                sel = sel + [R.choice(sel)]        # the same path listed twice
             R.shuffle(sel)
             files = [{'i': i} for i in sel]
             if kind == 'bad-input':
@@ -224,6 +226,10 @@ def _merge(run, step, files, src, add, tag, sig):
     sig.update({'incomplete': incomplete, 'non_strict': non_strict, 'out': bool(out), 'kind': step.get('kind'),
                 'out_fault': (out or {}).get('fault', {}).get('kind') if out else None})
     argv = ['merge']
+    if src != 'files':
+        # a bucket holds one object per key: listing a file twice means nothing there
+        seen = set()
+        files = [f for f in files if not (f['key'] in seen or seen.add(f['key']))]
     good = [f for f in files if not f['bad']]
     bad = [f for f in files if f['bad']]
     if src == 'files':
